@@ -27,7 +27,7 @@ ID = 'C16'
 
 MANIFEST = dict(
     technique='explicit-state enumeration of the logit-matrix input tree x all alignable transcriptions x all frame-shift subsets x threshold grid, and of all operation histories on a live BagOfHypotheses; real confidence code vs range/normalisation/invariance oracles',
-    text='Bounded exhaustive: every logit matrix with T <= 4 rows over a 9-row alphabet (C=3) with every alignable transcription, every subset of frames shifted by -5 / +3.3 (T <= 3), a threshold grid incl. 0, 1, inf and the occurring probabilities, through get_line_confidence, get_letter_confidence, PageParser.compute_line_confidence and line_confident_enough; and every history (depth <= 3 quick / 4 thorough) of add / set-lm_weight / query events on one BagOfHypotheses, whose posteriors must be the soft-max of vis + weight*lm after every event. Added sub-sweeps: frame shifts of +800, thresholds from -inf to inf, logits re-assigned on a live TextLine, float32 logits, caller-supplied log-probabilities passed twice, the cropped-window call of the ALTO exporter, and lines of more than 1000 frames. Frames shifted by -120 (below the floor given to pruned entries) where every class is stored. Page level: the matrix without frames (root of the tree), and for every matrix with T <= 2 (3 thorough) x every alignable transcription x 6 states of the line\'s characters / logit window (alignment available or not: the exporter\'s fall-back value is a reported confidence too) x every shifted subset of frames, what PageParser.process_page, to_altoxml_string (line confidence, WC) and to_pagexml_string (conf) report; and every history of <= 2 (3 thorough) load_logits calls on one live PageLayout over 16 files (current / older format without window and characters, two shapes, padded or not, one-hot / peaky), exported after every load and compared with a fresh page.',
+    text='Bounded exhaustive: every logit matrix with T <= 4 rows over a 9-row alphabet (C=3) with every alignable transcription, every subset of frames shifted by -5 / +3.3 (T <= 3), a threshold grid incl. 0, 1, inf and the occurring probabilities, through get_line_confidence, get_letter_confidence, PageParser.compute_line_confidence and line_confident_enough; and every history (depth <= 3 quick / 4 thorough) of add / set-lm_weight / query events on one BagOfHypotheses, whose posteriors must be the soft-max of vis + weight*lm after every event. Added sub-sweeps: frame shifts of +800, thresholds from -inf to inf, logits re-assigned on a live TextLine, float32 logits, caller-supplied log-probabilities passed twice, the cropped-window call of the ALTO exporter, and lines of more than 1000 frames. Frames shifted by -120 (below the floor given to pruned entries) where every class is stored. Page level: the matrix without frames (root of the tree), and for every matrix with T <= 2 (3 thorough) x every alignable transcription x 6 states of the line\'s characters / logit window (alignment available or not: the exporter\'s fall-back value is a reported confidence too) x every shifted subset of frames, what PageParser.process_page, to_altoxml_string (line confidence, WC) and to_pagexml_string (conf) report; and every history of <= 2 (3 thorough) load_logits calls on one live PageLayout over 16 files (current / older format without window and characters, two shapes, padded or not, one-hot / peaky), exported after every load and compared with a fresh page. Ownership of results: at every query point of a bag history the caller edits the list posteriors() gave it back (exp in place / reversed / emptied) and asks the same bag again (all answers unchanged), and a list held from an earlier query still reads the same after later events and queries. Tied frame shifts: for every ordered pair of frames (T <= 3) constants that compensate each other - frame masses 1.5 + 0.5 with the other frames at mass 1 (total mass stays T), and log-masses +2 / -2 (their sum stays 0) - through all four confidence functions, and the row-normalised log-posteriors themselves handed to line_confident_enough.',
     note='Real-valued logits outside the alphabet are not explored; word confidences in ALTO are checked under C06.',
     ref='3/C16')
 
@@ -39,8 +39,11 @@ ROWS = [
 ]
 ONEHOT = {0, 1, 2}
 SHIFTS = [-5.0, 3.3]
-BOUNDS = {'quick': dict(T=4, Tshift=3, bag_depth=3, Texport=2, Texport_shift=2, load_depth=2),
-          'thorough': dict(T=5, Tshift=4, bag_depth=4, Texport=3, Texport_shift=2, load_depth=3)}
+# log-masses given to a pair of frames that compensate each other: masses 1.5 + 0.5 = 2 (arithmetic mean 1), log-masses +2 - 2 = 0 (geometric mean 1)
+TIED_T = 3      # ... on every ordered pair of frames of the matrices with at most this many frames
+COMP_PAIRS = [(math.log(1.5), math.log(0.5)), (2.0, -2.0)]
+BOUNDS = {'quick': dict(T=4, Tshift=3, bag_depth=3, Texport=2, Texport_shift=2, load_depth=2, Ttied_labels=2),
+          'thorough': dict(T=5, Tshift=4, bag_depth=4, Texport=3, Texport_shift=2, load_depth=3, Ttied_labels=3)}
 BOUNDS['replay'] = BOUNDS['quick']
 BASE_T = [float('-inf'), -1.0, -1e-9, 0.0, 1e-6, 0.1, 1 / 3, 0.5, 0.9, 0.99, 1.0, 2.0, float('inf')]
 TOL = 1e-9
@@ -50,6 +53,7 @@ BAG_VIS = [-0.1, -2.0, -30.0]
 BAG_LM = [None, -0.5, -4.0]
 BAG_W = [0.0, 0.5, 1.0, 3.0]
 BAG_EVENTS = [('add', t, v, l) for t in BAG_TR for v in BAG_VIS for l in BAG_LM] + [('w', w) for w in BAG_W]
+BAG_EDITS = ['exp-in-place', 'reversed', 'emptied']     # what a caller does with the list posteriors() gave it
 
 CHARS = ['a', 'b', '\u200b']
 # the state in which the ALTO exporter finds the companions of a line's logits; the first two let it align the transcription, with the others
@@ -113,7 +117,10 @@ def run_shard(shard, ctx, tier):
     if shard['kind'] == 'mat':
         T, prefix = shard['T'], shard['prefix']
         for rest in itertools.product(range(len(ROWS)), repeat=T - len(prefix)):
-            guarded_check(mod, {'rows': prefix + list(rest), 'shifts': T <= b['Tshift']}, ctx)
+            case = {'rows': prefix + list(rest), 'shifts': T <= b['Tshift']}
+            if case['shifts'] and T > b['Ttied_labels']:
+                case['tied'] = 'line'
+            guarded_check(mod, case, ctx)
     else:
         i = shard['first']
         n = len(BAG_EVENTS)
@@ -135,6 +142,11 @@ def make_line(rows, shift=None, dtype=np.float64):
                 M[t, c] = v + (shift[t] if shift is not None else 0.0)
     line = TextLine(id='l', logits=sparse.csc_matrix(M), characters=['a', 'b', '​'], logit_coords=[0, T])
     return line
+
+
+def storable(rows, shift):
+    """a sparse logit matrix cannot hold a logit of exactly 0 (0 = not stored, takes the floor): such a shifted matrix exists as a dense array only"""
+    return not any(v is not None and v + shift[t] == 0.0 for t, r in enumerate(rows) for v in ROWS[r])
 
 
 def dense_ref(rows, shift=None):
@@ -180,6 +192,12 @@ def check_matrix(case, ctx):
     logp = dense - np.logaddexp.reduce(dense, axis=1)[:, None]
     onehot = all(r in ONEHOT for r in rows)
     subsets = []
+    tied = set()
+
+    tied_per_label = case.get('tied', 'all') == 'all'       # 'line': tied shifts go through the two line-level functions only
+
+    def shift_class(sh):
+        return 'compensating-shifts' if tuple(sh) in tied else 'shift'
     if case.get('shifts'):
         for c in SHIFTS + ([800.0] if T <= 2 else []):      # +800: beyond the overflow limit of a naive exp() in float64
             for m in range(1, 2 ** T):
@@ -190,6 +208,15 @@ def check_matrix(case, ctx):
         for m in range(1, 2 ** len(full)):
             subsets.append([-120.0 if t in full and (m >> full.index(t)) & 1 else 0.0 for t in range(T)])
             ctx.tag('frame-shifted-below-the-floor-of-pruned-entries')
+        # compensating shifts: constants on two frames that are TIED to each other so that an aggregate of the whole matrix keeps the value it has
+        # for row-normalised input, although neither frame is normalised - the total probability mass stays T (frame masses f and 2 - f), or the
+        # sum of the log-masses stays 0 (+c and -c).  Every shift here moves frame t to log-mass COMP[..][t], whatever its mass was before.
+        lse = np.logaddexp.reduce(dense, axis=1)
+        for i, j in itertools.permutations(range(T if T <= TIED_T else 0), 2):
+            for ci, cj in COMP_PAIRS:
+                subsets.append([float(-lse[t] + (ci if t == i else cj if t == j else 0.0)) for t in range(T)])
+                tied.add(tuple(subsets[-1]))
+                ctx.tag('compensating-frame-shifts')
 
     # ---- page-level line confidence and the confident-line test
     clc = float(PageParser.compute_line_confidence(line))
@@ -215,21 +242,32 @@ def check_matrix(case, ctx):
     ctx.outcome((round(clc, 6), tuple(res)))
     if True in res and False in res:
         ctx.tag('threshold-grid-splits')
+    # the caller hands in posteriors that ARE row-normalised already (what PageDecoder does): the same answers as for the raw logits
+    ts = [t for t in grid if not abs(t - worst) <= 1e-6]      # a threshold equal to the probability is decided by round-off
+    rn = [bool(line_confident_enough(logp.copy(), t)) for t in ts]
+    ctx.executed(len(ts))
+    if rn != [r for t, r in zip(grid, res) if t in ts] and len(res) == len(grid):
+        ctx.violation('invariant-to-per-frame-shift', f'{K}/line_confident_enough/row-normalised-input',
+                      f'rows {rows}: thresholds {ts}: {rn} for the row-normalised log-posteriors, {res} (grid {grid}) for the logits they come from')
+    ctx.tag('row-normalised-input')
+    ts = [t for t in BASE_T if not abs(t - worst) <= 1e-6]      # a threshold equal to the probability is decided by round-off
+    r1 = [bool(line_confident_enough(dense.copy(), t)) for t in ts] if subsets else []
+    ctx.executed(len(r1))
     for sh in subsets:
-        l2 = make_line(rows, sh)
-        c2 = float(PageParser.compute_line_confidence(l2))
-        ctx.executed()
+        c2 = clc
+        if storable(rows, sh):
+            l2 = make_line(rows, sh)
+            c2 = float(PageParser.compute_line_confidence(l2))
+            ctx.executed()
         if far(c2, clc):
-            ctx.violation('invariant-to-per-frame-shift', f'{K}/compute_line_confidence/shift',
+            ctx.violation('invariant-to-per-frame-shift', f'{K}/compute_line_confidence/{shift_class(sh)}',
                           f'rows {rows}, shift {sh}: {clc} -> {c2}')
             break
         d2 = dense_ref(rows, sh)
-        ts = [t for t in BASE_T if not abs(t - worst) <= 1e-6]      # a threshold equal to the probability is decided by round-off
         r2 = [bool(line_confident_enough(d2.copy(), t)) for t in ts]
-        r1 = [bool(line_confident_enough(dense.copy(), t)) for t in ts]
-        ctx.executed(2 * len(ts))
+        ctx.executed(len(ts))
         if r1 != r2:
-            ctx.violation('invariant-to-per-frame-shift', f'{K}/line_confident_enough/shift', f'rows {rows}, shift {sh}: {r1} -> {r2}')
+            ctx.violation('invariant-to-per-frame-shift', f'{K}/line_confident_enough/{shift_class(sh)}', f'rows {rows}, shift {sh}: {r1} -> {r2}')
             break
 
     # ---- the logits as the engines store them (float32, sparse): same confidences, and the stored logits are only read
@@ -357,22 +395,31 @@ def check_matrix(case, ctx):
             ali = None
             ctx.tag('one-frame-per-label-line')
         for sh in subsets:
-            l2 = make_line(rows, sh)
-            c2 = np.asarray(get_line_confidence(l2, lab, aligned_letters=aligned), dtype=float)
-            ctx.executed()
+            if tuple(sh) in tied and not tied_per_label:
+                continue
+            c2 = conf
+            if storable(rows, sh):
+                l2 = make_line(rows, sh)
+                c2 = np.asarray(get_line_confidence(l2, lab, aligned_letters=aligned), dtype=float)
+                ctx.executed()
             if c2.shape != conf.shape or far(c2, conf):
-                ctx.violation('invariant-to-per-frame-shift', f'{K}/get_line_confidence/shift',
+                ctx.violation('invariant-to-per-frame-shift', f'{K}/get_line_confidence/{shift_class(sh)}',
                               f'rows {rows}, labels {labels}, shift {sh}: {conf} -> {c2}', sub)
                 break
             if ali is not None:
                 lc2 = np.exp(np.asarray(get_letter_confidence(dense_ref(rows, sh), ali, 2), dtype=float))
                 ctx.executed()
                 if lc2.shape != lc.shape or far(lc2, lc):
-                    ctx.violation('invariant-to-per-frame-shift', f'{K}/get_letter_confidence/shift',
+                    ctx.violation('invariant-to-per-frame-shift', f'{K}/get_letter_confidence/{shift_class(sh)}',
                                   f'rows {rows}, labels {labels}, shift {sh}: {lc} -> {lc2}', sub)
                     break
     if T == 2:
         ctx.sample({'rows': [ROWS[r] for r in rows], 'compute_line_confidence': clc})
+
+
+def bag_answers(boh):
+    """[posteriors (a copy), confidence, transcript confidences] as the bag reports them now"""
+    return [list(boh.posteriors()), float(boh.confidence())] + [float(boh.transcript_confidence(t)) for t in BAG_TR]
 
 
 def check_bag(case, ctx):
@@ -382,6 +429,7 @@ def check_bag(case, ctx):
     boh = BagOfHypotheses() if (first_w is None or len(evs) % 2) else BagOfHypotheses(lm_weight=1.0)
     model, w = [], boh.lm_weight
     K = f'{ID}/bag'
+    held = None         # (the list an earlier posteriors() call returned, which the caller still holds; its content at that time; the history then)
     for n, e in enumerate(evs):
         if e[0] == 'add':
             boh.add(e[1], e[2], e[3])
@@ -392,6 +440,17 @@ def check_bag(case, ctx):
         ctx.executed()
         if n < len(evs) - 1 and n % 2 == 1:
             continue        # query after the first, third ... and always after the last event
+        if held is not None:
+            # the caller kept the result of an earlier query while the bag went on (events, further queries): what it holds is still that result
+            boh.posteriors()
+            boh.confidence()
+            ctx.executed(2)
+            if len(held[0]) != len(held[1]) or far(held[0], held[1], 0.0):
+                ctx.violation('posteriors-from-normalised-scores', f'{K}/held-result-changed-by-later-use-of-the-bag',
+                              f'posteriors() after history {held[2]} returned {held[1]}; after the further events {evs[len(held[2]):n + 1]} and queries '
+                              f'the list the caller still holds reads {list(held[0])}')
+                return
+            ctx.tag('bag-result-held-across-events')
         post = np.exp(np.asarray(boh.posteriors(), dtype=float))
         conf = boh.confidence()
         ctx.executed(2)
@@ -415,6 +474,29 @@ def check_bag(case, ctx):
             if not in01(tc) or (t == 'zz' and not tc == 0.0):
                 ctx.violation('in-unit-interval', f'{K}/transcript_confidence', f'{desc}: transcript_confidence({t!r}) = {tc}')
                 return
+        # the caller does something with the list it was GIVEN BACK (it is the caller's: converting log-posteriors to probabilities in place,
+        # reordering, emptying it) and asks the same bag again: every answer is still that of the bag's hypotheses
+        first = bag_answers(boh)
+        for edit in (BAG_EDITS if n == len(evs) - 1 else BAG_EDITS[:1]):      # every prefix of a history is a history: all edits at its end
+            mine = boh.posteriors()
+            if edit == 'exp-in-place':
+                for k in range(len(mine)):
+                    mine[k] = math.exp(mine[k])
+            elif edit == 'reversed':
+                mine.reverse()
+            else:
+                del mine[:]
+            again = bag_answers(boh)
+            ctx.executed(2 * (2 + len(BAG_TR)) + 1)
+            if len(again[0]) != len(first[0]) or far(again[0], first[0]) or far(again[1:], first[1:]) or not in01(again[1:]):
+                ctx.violation('posteriors-from-normalised-scores', f'{K}/answers-change-after-caller-edits-the-returned-posteriors',
+                              f'{desc}: the caller edits the list posteriors() returned ({edit}); before: posteriors {first[0]}, confidence {first[1]}, '
+                              f'transcript confidences {first[2:]}; the same bag afterwards: posteriors {again[0]}, confidence {again[1]}, '
+                              f'transcript confidences {again[2:]}')
+                return
+        ctx.tag('bag-caller-edits-returned-posteriors')
+        lst = boh.posteriors()
+        held = (lst, list(lst), evs[:n + 1])
     ctx.state(('bag', tuple(model), w))
     ctx.outcome(('bag', round(float(conf), 6)))
     if any(e[0] == 'w' for e in evs[1:]) and any(l is not None for _, _, l in model):
@@ -775,7 +857,9 @@ def describe(tier):
         'rule': 'all matrices with T<=T rows over the 9-row alphabet x all alignable transcriptions over {a,b}; every non-empty subset '
                 'of frames shifted by -5 or +3.3 for T<=Tshift; threshold grid = 10 fixed values + the occurring worst-best '
                 'probability (+-1e-7) + the line confidence; all bag histories (18 adds + 4 weight assignments) up to bag_depth, '
-                'queried after every other event and at the end. state = distinct matrix / bag content. Non-trivial: a line with more '
+                'queried after every other event and at the end; at every query point the caller also edits the list posteriors() returned '
+                '(3 edits) and asks again, and looks again at the list it kept from the previous query point. For T<=Tshift and T>=2 every ordered '
+                'pair of frames x 2 pairs of compensating log-masses. state = distinct matrix / bag content. Non-trivial: a line with more '
                 'frames than labels (real alignment), or a bag history that changes lm_weight between queries with LM scores present. '
                 'Page level: the matrix without frames; all matrices with T<=Texport x all alignable transcriptions x 6 states of the line\'s characters / '
                 'logit window x every non-empty subset of frames shifted (T<=Texport_shift), observed through PageParser.process_page, to_altoxml_string and '
@@ -784,14 +868,18 @@ def describe(tier):
         'bounds': BOUNDS[tier],
         'alphabets': {'rows': [[('floor' if v is None else v) for v in r] for r in ROWS], 'shifts': SHIFTS,
                       'thresholds': [str(t) for t in BASE_T], 'bag_vis': BAG_VIS, 'bag_lm': [str(x) for x in BAG_LM], 'bag_weights': BAG_W,
+                      'bag_caller_edits': BAG_EDITS, 'compensating_log_masses_of_a_frame_pair': [list(p) for p in COMP_PAIRS],
                       'export_line_states': EXPORT_STATES, 'logits_files': [list(f) for f in LOAD_FILES]},
         'assumptions': ['tolerance 1e-9 on shift invariance and normalisation', 'alignment is computed once and reused for the shifted copy, '
                         'so that round-off cannot flip a tie in the alignment', 'shift invariance of an ALTO export that aligns the text itself is compared only where the '
                         'alignment is forced (one frame per character); WC / conf are compared at the precision they are written with',
+                        'a shifted matrix with a logit of exactly 0 exists only as a dense array (a sparse line cannot store it) and is given to line_confident_enough / '
+                        'get_letter_confidence only',
                         'a line without frames, or a text longer than its line, may be refused (exception); a value that is reported must be a probability'],
         'min_nontrivial': 100,
         'required_tags': ['line-without-frames', 'page-with-a-line-without-frames', 'export-aligned', 'export-one-hot-line', 'export-alignment-unavailable', 'export-empty-window',
                           'export-shifted', 'logits-reloaded-on-a-live-page', 'older-format-loaded-over-current-format',
                           'frame-shifted-below-the-floor-of-pruned-entries', 'cropped-window-call', 'float32-logits', 'lines-with-more-than-1000-frames', 'logits-reassigned-on-a-live-line', 'aligned-ctc-line', 'one-hot-line', 'one-frame-per-label-line', 'threshold-grid-splits',
-                          'bag-weight-changed-between-queries'],
+                          'bag-weight-changed-between-queries', 'bag-caller-edits-returned-posteriors', 'bag-result-held-across-events',
+                          'compensating-frame-shifts', 'row-normalised-input'],
     }
